@@ -122,6 +122,14 @@ theorem facts_keywords :
        "HAVING", "LIKE", "IS", "NULL", "NOT", "CASE", "WHEN", "THEN", "ELSE", "END", "OVER", "PARTITION"] ∧
     kwCodes.length = Facts.rsql_Lexer_lookupIdent_strlits.length := by decide
 
+/-- the misspellings `checkForTypos` reports (its case labels, each group followed by the suggestion;
+the last literal is the message format) -/
+theorem facts_typos :
+    Facts.rsql_Lexer_checkForTypos_strlits =
+      ["SELCT", "SELECCT", "SELET", "SELECT", "FORM", "FRON", "FRMO", "FROM", "WHER", "WHRE", "WEHRE", "WHERE",
+       "GROPU", "GRUP", "GRPUP", "GROUP", "ODER", "ORDR", "OREDR", "ORDER", "DSITINCT", "DISTINC", "DISTINT",
+       "DISTINCT", "Unknown keyword '%s'"] := by decide
+
 /-- the `TokenType` enumeration: the 62 kinds of the model carry 62 pairwise distinct codes in `0..61`
 (so the kind ↔ Go token type translation of the driver is a bijection), and the lexical error types
 are the four distinct constants of `error.go` -/
